@@ -329,7 +329,17 @@ def _pages(ck, tier):
     c16.page_boundaries(ck, pid=ck.pid)
 
 
-EXTRA = {'C02': _traces(None), 'C03': _traces(None),
+def _interrupted_repack(ck, tier):
+    """C03 speaks of ANY sequence of operations: also one in which an operation failed half-way (I/O error) or was killed, and maintenance
+    was retried afterwards through a new handle - the raw state must still satisfy the invariant (sweep.one: follow-up stage)"""
+    import sweep
+    names = ['repack', 'repack_keep'] + ([n for n in tracecheck.random_names(ck.rng, 3) if n.startswith('rnd_repack_')] if tier != 'quick' else [])
+    total, _ = sweep.sweep(ck, ck.pid, names, 'fault')
+    total2, _ = sweep.sweep(ck, ck.pid, names[:1], 'kill')
+    ck.cov['interrupted_repack_points'] = total + total2
+
+
+EXTRA = {'C02': _traces(None), 'C03': (lambda ck, tier: (_traces(None)(ck, tier), _interrupted_repack(ck, tier))),
          'C09': (lambda ck, tier: (_traces(['add_dup', 'topack', 'topack_nh', 'topack_nh_rt0', 'topack_multi', 'import_same'])(ck, tier), _pages(ck, tier))),
          'C10': (lambda ck, tier: (_traces(['pack_clean', 'pack_auto', 'repack', 'repack_keep'])(ck, tier), _estimate(ck, tier))), 'C11': _traces(['delete', 'repack', 'repack_keep']),
          'C13': (lambda ck, tier: (_traces(tracecheck.NOREPACK_SCENARIOS)(ck, tier), _pick_pack(ck, tier), _layout(ck, tier))), 'C14': (lambda ck, tier: (_traces(['import_same', 'import_diff', 'import_same_stream', 'import_diff_stream'])(ck, tier), _import_plan(ck, tier)))}
